@@ -135,6 +135,18 @@ theorem cylinder_normals_outward {sides : Nat} {r H : ℝ} (hr : 0 < r) (hH : 0 
 example : OutwardAt (cylinderPos (1 : ℝ) 2 3) O3 (cylinderTris 3 false false) :=
   cylinder_outward (by norm_num) (by norm_num) (by decide)
 
+/-- **six-quad box normals** (`Up` rotated with each face, exact form) point to the outer side of their face -/
+theorem cubeQuads_normals_outward {w h d : ℝ} (hw : 0 < w) (hh : 0 < h) (hd : 0 < d) :
+    NormalsOutward (cubeQuadsPos w h d) cubeQuadsNormal cubeQuadsTris :=
+  cubeQuads_normals_outward_aux hw hh hd
+
+/-- the sphere mesh is an INSCRIBED polyhedron: every vertex used by a triangle lies on the sphere of radius `r`
+    (so, being closed and outward, it bounds a polyhedron inside the ball) -/
+theorem uvSphere_inscribed {rows cols : Nat} (r : ℝ) (hR : 2 ≤ rows) (hC : 3 ≤ cols) :
+    ∀ t ∈ uvSphereTris rows cols, (uvSpherePos r rows cols t.1).LengthSquared = r ^ 2 ∧
+      (uvSpherePos r rows cols t.2.1).LengthSquared = r ^ 2 ∧ (uvSpherePos r rows cols t.2.2).LengthSquared = r ^ 2 :=
+  uvSphere_inscribed_aux r hR hC
+
 /-- **hemisphere faces point outward**, all sizes, every radius `> 0`: every dome triangle and every cap triangle has
     positive signed volume against the point `(0, r/2, 0)` on the axis (dome: `r²·sin ψ·sin(2π/cols)·(r·sin δ −
     (r/2)(sin ψ₁ − sin ψ₂)) / 6`, cap: `r³·sin(2π/cols)/12`). -/
@@ -144,6 +156,56 @@ theorem hemisphere_outward {rows cols : Nat} {r : ℝ} (hr : 0 < r) (hR : 2 ≤ 
 
 example : OutwardAt (hemispherePos (2 : ℝ) 2 3) (hemiCtr 2) (hemisphereTris 2 3) :=
   hemisphere_outward (by norm_num) (by decide) (by decide)
+
+/-! ## Volume
+
+`volume6 pos ts` = Σ over triangles of `a · (b × c)` = six times the signed volume enclosed by the (closed,
+outward) surface, i.e. the volume of the inscribed polyhedron the mesh describes. -/
+
+/-- the welded box encloses exactly `w·h·d` -/
+theorem cube_volume (w h d : ℝ) : volume6 (cubeWeldedPos w h d) cubeWeldedTris / 6 = w * h * d := by
+  rw [show cubeWeldedTris = unflat Gen.CubeTable.cubeVertIndices from rfl, cube_volume_aux]; ring
+
+/-- the six-quad box encloses exactly `w·h·d` -/
+theorem cubeQuads_volume (w h d : ℝ) : volume6 (cubeQuadsPos w h d) cubeQuadsTris / 6 = w * h * d := by
+  rw [cubeQuads_volume_aux]; ring
+
+/-- **capped cylinder**: the enclosed volume is that of the prism over the inscribed regular `sides`-gon,
+    `(sides/2)·sin(2π/sides)·r²·H`, for all `sides ≥ 3` -/
+theorem cylinder_volume {sides : Nat} (r H : ℝ) (hS : 3 ≤ sides) :
+    volume6 (cylinderPos r H sides) (cylinderTris sides false false) / 6 =
+      (sides : ℝ) / 2 * Real.sin (2 * Real.pi / sides) * r ^ 2 * H := by
+  rw [cylinder_volume_aux r H hS]; ring
+
+/-- … which is at most the analytic volume `π r² H` and approaches it: relative deficit `≤ 2π²/(3·sides²)` -/
+theorem cylinder_volume_bounds {sides : Nat} {r H : ℝ} (hr : 0 < r) (hH : 0 < H) (hS : 3 ≤ sides) :
+    volume6 (cylinderPos r H sides) (cylinderTris sides false false) / 6 ≤ Real.pi * r ^ 2 * H ∧
+    Real.pi * r ^ 2 * H * (1 - 2 * Real.pi ^ 2 / (3 * (sides : ℝ) ^ 2)) ≤
+      volume6 (cylinderPos r H sides) (cylinderTris sides false false) / 6 :=
+  cylinder_volume_bounds_aux hr hH hS
+
+/-- **UV sphere**: the enclosed volume in closed form, `(cols·r³/3)·sin(2π/cols)·(1 + cos(π/rows))`, for all
+    `rows ≥ 2`, `cols ≥ 3` (the stack of regular-`cols`-gon frusta inscribed in the sphere) -/
+theorem uvSphere_volume {rows cols : Nat} (r : ℝ) (hR : 2 ≤ rows) (hC : 3 ≤ cols) :
+    volume6 (uvSpherePos r rows cols) (uvSphereTris rows cols) / 6 =
+      (cols : ℝ) * r ^ 3 / 3 * Real.sin (2 * Real.pi / cols) * (1 + Real.cos (Real.pi / rows)) := by
+  rw [uvSphere_volume_aux r hR hC]; ring
+
+/-- … which is at most the analytic volume `4/3·π·r³` and approaches it as the resolution grows:
+    relative deficit `≤ 2π²/(3·cols²) + π²/(4·rows²)` -/
+theorem uvSphere_volume_bounds {rows cols : Nat} {r : ℝ} (hr : 0 < r) (hR : 2 ≤ rows) (hC : 3 ≤ cols) :
+    volume6 (uvSpherePos r rows cols) (uvSphereTris rows cols) / 6 ≤ 4 / 3 * Real.pi * r ^ 3 ∧
+    4 / 3 * Real.pi * r ^ 3 * (1 - 2 * Real.pi ^ 2 / (3 * (cols : ℝ) ^ 2) - Real.pi ^ 2 / (4 * (rows : ℝ) ^ 2)) ≤
+      volume6 (uvSpherePos r rows cols) (uvSphereTris rows cols) / 6 :=
+  uvSphere_volume_bounds_aux hr hR hC
+
+/-- the unwelded sphere encloses the same volume as the welded one -/
+theorem uvSphereUnwelded_volume {rows cols : Nat} (r : ℝ) (hR : 2 ≤ rows) (hC : 3 ≤ cols) :
+    volume6 (uvUnweldedPos r rows cols) (uvSphereUnweldedTris rows cols) / 6 =
+      (cols : ℝ) * r ^ 3 / 3 * Real.sin (2 * Real.pi / cols) * (1 + Real.cos (Real.pi / rows)) := by
+  rw [show uvUnweldedPos r rows cols = fun v => uvSpherePos r rows cols (uvUnweldedSrc rows cols v) from rfl,
+    volume6_map, uvUnwelded_map_src]
+  exact uvSphere_volume r hR hC
 
 end C18
 end PolyVerif
